@@ -150,7 +150,8 @@ if __name__ == "__main__":
         # import NAME PROP CRATE CMD SUMMARY NEEDS [ORIGIN]
         FINAL = "independent sub-agent (final round: told about every workload class of DESIGN 10.3; asked for mode-change, composition, staleness, clone, first-call or coinciding-counter faults that violate the property as stated) given only the property text and a scratch worktree"
         ROUND6 = "independent sub-agent (round 6: told about every workload class of DESIGN 10.3 including round 5's; asked which inputs, configurations or call patterns inside the quantifier such a regime would still not produce) given only the property text and a scratch worktree"
-        origin = sys.argv[8] if len(sys.argv) > 8 and sys.argv[8] else FINAL if sys.argv[2].endswith("f") else ROUND6 if sys.argv[2].endswith("g") else ROUND6.replace("round 6", "round 7 (thirteen properties)") if sys.argv[2].endswith("h") else "independent sub-agent (hardest round: told that debug/release/no_std/Miri, width-boundary, IEEE-special, source-literal, wide and long-run inputs are already tested; asked for history-, combination- or route-dependent faults) given only the property text and a scratch worktree"
+        ROUND8 = "independent sub-agent (round 8, six properties with a 32-bit interpreter stage: told every workload class up to round 7 and that small-scope workloads also run as a 32-bit build under Miri; asked for a change that manifests only when usize is 32 bits wide) given only the property text and a scratch worktree"
+        origin = sys.argv[8] if len(sys.argv) > 8 and sys.argv[8] else ROUND8 if sys.argv[2].endswith("i") else FINAL if sys.argv[2].endswith("f") else ROUND6 if sys.argv[2].endswith("g") else ROUND6.replace("round 6", "round 7 (thirteen properties)") if sys.argv[2].endswith("h") else "independent sub-agent (hardest round: told that debug/release/no_std/Miri, width-boundary, IEEE-special, source-literal, wide and long-run inputs are already tested; asked for history-, combination- or route-dependent faults) given only the property text and a scratch worktree"
         import_(sys.argv[2], sys.argv[3], sys.argv[4], sys.argv[5], sys.argv[6], sys.argv[7], origin)
         sys.exit(0)
     if sys.argv[1] == "confirm":
